@@ -131,7 +131,7 @@ P = {
          "refused Open and identical observations for accepted ones.", ""),
 }
 TECH = "Rocq (Coq 8.16.1) proof over an executable Gallina model + differential correspondence model vs code"
-TIED = {"C01", "C04", "C05", "C06", "C12", "C13", "C15", "C20", "C21"}
+TIED = {"C01", "C04", "C05", "C06", "C07", "C12", "C13", "C15", "C20", "C21"}
 cat = {"C09": "proof", "C16": "fault_enumeration"}
 checks = []
 for pid in sorted(P):
